@@ -297,8 +297,10 @@ def _cli(case, res, tier):
     if strict:
         res["labels"]["cli_fixpoint_strict"] = 1
         if s2 != s1:
+            from harness import engine
+
             for rid in had or ["?"]:
-                res["failures"].append({"sig": {"kind": "clean_file_rewritten", "rule": rid}, "detail": {"before": s1, "after": s2, "remaining": remaining[:3], "rules_claiming_a_fix": had}, "case": concrete})
+                res["failures"].append({"sig": {"kind": "clean_file_rewritten", "site": engine.site_of_id(rid)}, "detail": {"before": s1, "after": s2, "remaining": remaining[:3], "rules_claiming_a_fix": had}, "case": concrete})
     else:
         res["labels"]["cli_fixpoint_has_unrepairable_fixable_violations"] = 1
         if s2 != s1:
